@@ -12,7 +12,10 @@ FLOW = {"name": "flow", "pkg": "pkg/verifflow", "harness": "flow", "run": "^Test
         "shards": 16, "shards_thorough": 16}
 
 CHECKS = {
+    "PROC": {"parts": [FLOW]},
     "C01": {"parts": [FLOW]},
+    "C02": {"parts": [FLOW]},
+    "C03": {"parts": [FLOW]},
     "C04": {"parts": [FLOW]},
     "C05": {"parts": [FLOW]},
     "SMOKE": {
